@@ -370,10 +370,12 @@ func c12r4(w *World, rr *RuleRun) {
 		pv := w.TS.Of(p.(ssa.Value))
 		n := 0
 		for _, se := range w.CallsInRegion(h.fn, h.sendError) {
-			e := w.TS.Of(callInstrCommon(se).Args[3])
-			if e.Contains(pv) {
-				n++
-				rr.At(w, se, "put relays the store's KRPC error", true, "error ← "+e.String())
+			for _, e := range w.ArgTerms(se, 3) {
+				if e.Contains(pv) {
+					n++
+					rr.At(w, se, "put relays the store's KRPC error", true, "error ← "+e.String())
+					break
+				}
 			}
 		}
 		if n == 0 {
@@ -627,8 +629,13 @@ func c12r6(w *World, rr *RuleRun) {
 			if !PrecededBy(site, func(i ssa.Instruction) bool { return i == p }) {
 				continue
 			}
-			et := w.TS.Of(callInstrCommon(site).Args[3])
-			if !et.Contains(pt) {
+			var et *Term
+			for _, cand := range w.ArgTerms(site, 3) {
+				if cand.Contains(pt) {
+					et = cand
+				}
+			}
+			if et == nil {
 				continue
 			}
 			nS++
